@@ -699,6 +699,11 @@ def running_clock_cases():
         for f in ('NOW()', 'TODAY()', 'NOW()-TODAY()', 'NOW()+0', 'INT(NOW())-TODAY()', 'HOUR(NOW())*3600+MINUTE(NOW())*60+SECOND(NOW())'):
             for path in ('parser', 'cell', 'dict', 'compile'):
                 yield {'k': 'running', 'start': list(st_), 'f': f, 'path': path}
+        # the volatile cell lives in a second workbook that is not loaded explicitly: finish() pulls it in through the
+        # reference of the first one (added after seed c13-a-r6: a linked book must be read as formulas, not as stored values)
+        for f in ('NOW()', 'TODAY()', 'NOW()+0'):
+            for path in ('linked', 'linked-compile'):
+                yield {'k': 'running', 'start': list(st_), 'f': f, 'path': path}
 
 
 def check_running(case):
@@ -717,6 +722,32 @@ def check_running(case):
             call = lambda: sut.one(fn())
         elif case['path'] == 'cell':
             call = lambda: sut.one(sut.cell_eval('A1', f)[0])
+        elif case['path'].startswith('linked'):
+            import openpyxl
+            d = workdir()
+            os.makedirs(d, exist_ok=True)
+            try:
+                wo = openpyxl.Workbook()
+                wo.active.title = 'T'
+                wo.active['A1'] = f
+                wo.active['B1'] = 5.0
+                wo.save(os.path.join(d, 'other.xlsx'))
+                wm = openpyxl.Workbook()
+                wm.active.title = 'S'
+                wm.active['A1'] = "='[other.xlsx]T'!A1"
+                wm.active['Z1'] = 1.0
+                wm.active['A2'] = "='[other.xlsx]T'!B1+Z1"
+                wm.save(os.path.join(d, 'main.xlsx'))
+                m = sut.ExcelModel().loads(os.path.join(d, 'main.xlsx')).finish()
+            finally:
+                shutil.rmtree(d, ignore_errors=True)
+            nodes = {str(k).upper(): k for k in m.dsp.data_nodes if isinstance(k, str)}
+            a1 = nodes["'[MAIN.XLSX]S'!A1"]
+            if case['path'] == 'linked':
+                call = lambda: sut.one(m.calculate()[a1])
+            else:
+                cf = m.compile([nodes["'[MAIN.XLSX]S'!Z1"]], [a1])
+                call = lambda: sut.one(cf(2.0))
         else:
             m = sut.ExcelModel().from_dict({Q + 'A1': f, Q + 'Z1': 1.0, Q + 'A2': '=%sA1+%sZ1' % (Q, Q)})
             if case['path'] == 'dict':
